@@ -37,7 +37,6 @@ import (
 	"github.com/cenkalti/rain/v2/internal/storage/filestorage"
 	"github.com/cenkalti/rain/v2/internal/verif/vh"
 	"github.com/cenkalti/rain/v2/torrent"
-	"go.etcd.io/bbolt"
 )
 
 const torrentID = "t1"
@@ -50,6 +49,7 @@ type geo struct {
 	ord   map[int]int // index in tor.Files -> ordinal
 	fo    [][]int     // piece -> ordinals of the (non-empty, non-padding) files it overlaps, in write order
 	zero  [][2]int64  // all-zero data ranges of the content (zero layouts)
+	id    string      // torrent id in the session (directory below the data directory)
 }
 
 // zeroPieces lists the pieces whose whole content is zero.
@@ -141,13 +141,31 @@ func zeroLayout(name string, unit int) (vh.Layout, [][2]int64, bool) {
 	return vh.Layout{}, nil, false
 }
 
+// spanLayout returns layouts whose pieces span more than two files / span files across a padding file (write-fault
+// family: a piece write consists of one storage write per file section).
+func spanLayout(name string, unit int) (vh.Layout, bool) {
+	u := int64(unit)
+	switch name {
+	case "span3":
+		return vh.Layout{Name: name, PieceLen: 2 * unit, Files: []vh.FileSpec{{Path: []string{"a"}, Length: u + 5}, {Path: []string{"d", "b"}, Length: u / 2},
+			{Path: []string{"c"}, Length: 2*u + 9}}}, true
+	case "spanpad":
+		return vh.Layout{Name: name, PieceLen: 2 * unit, Files: []vh.FileSpec{{Path: []string{"a"}, Length: u}, {Path: []string{".pad", "0"}, Length: u / 2, Pad: true},
+			{Path: []string{"b"}, Length: 2*u + 100}}}, true
+	}
+	return vh.Layout{}, false
+}
+
 func newGeo(layout string, unit int, seed int64) (*geo, error) {
-	g := &geo{ord: map[int]int{}}
+	g := &geo{ord: map[int]int{}, id: torrentID}
 	if zl, zr, ok := zeroLayout(layout, unit); ok {
 		g.tor = vh.BuildZero(zl, seed, zr)
 		g.zero = zr
 	} else {
 		l, ok := layoutByName(layout, unit)
+		if !ok {
+			l, ok = spanLayout(layout, unit)
+		}
 		if !ok {
 			return nil, fmt.Errorf("unknown layout %q", layout)
 		}
@@ -176,7 +194,7 @@ func newGeo(layout string, unit int, seed int64) (*geo, error) {
 }
 
 func (g *geo) path(dataDir string, o int) string {
-	return filepath.Join(dataDir, torrentID, g.tor.StoragePath(g.files[o]))
+	return filepath.Join(dataDir, g.id, g.tor.StoragePath(g.files[o]))
 }
 
 // classes reads the data files and classifies every piece: good (all non-padding bytes equal the ground
@@ -250,6 +268,44 @@ type child struct {
 	sess  *torrent.Session
 	tr    *torrent.Torrent
 	data  string
+	fault *faultSpec // injected write fault of this process life (nil = none)
+}
+
+// faultSpec selects ONE section of ONE piece: the write into file ordinal fo[p][s] fails with an I/O error, either
+// before a byte is written ("enter") or after the first half of the section ("half"); once = the first hit only.
+type faultSpec struct {
+	p, s  int
+	mode  string
+	once  bool
+	fired atomic.Bool
+}
+
+var errInjected = fmt.Errorf("input/output error (injected)")
+
+func parseFault(v string) *faultSpec {
+	if v == "" {
+		return nil
+	}
+	x := strings.Split(v, ":")
+	if len(x) != 4 {
+		panic("bad -fault " + v)
+	}
+	f := &faultSpec{mode: x[2], once: x[3] == "1"}
+	f.p, _ = strconv.Atoi(x[0])
+	f.s, _ = strconv.Atoi(x[1])
+	return f
+}
+
+// faultFor tells whether the write of piece p into file ordinal o is the one that fails.
+func (c *child) faultFor(p, o int) string {
+	f := c.fault
+	if f == nil || p != f.p || p < 0 || p >= len(c.g.fo) || f.s >= len(c.g.fo[p]) || c.g.fo[p][f.s] != o {
+		return ""
+	}
+	if f.once && f.fired.Swap(true) {
+		return ""
+	}
+	return f.mode
 }
 
 func (c *child) emit(e map[string]any) {
@@ -376,18 +432,30 @@ func (f *wfile) piece(off int64, n int) int {
 
 func (f *wfile) WriteAt(b []byte, off int64) (int, error) {
 	p := f.piece(off, len(b))
+	flt := f.c.faultFor(p, f.o)
 	f.c.gate('w', map[string]any{"ev": "w", "phase": "enter", "f": f.o, "p": p, "n": len(b)})
+	if flt == "enter" {
+		f.c.gate('w', map[string]any{"ev": "w", "phase": "exit", "f": f.o, "p": p, "err": errInjected.Error(), "fault": flt})
+		return 0, errInjected
+	}
 	half := len(b) / 2
 	n, err := f.inner.WriteAt(b[:half], off)
 	if err == nil {
 		f.c.gate('w', map[string]any{"ev": "w", "phase": "half", "f": f.o, "p": p})
-		var n2 int
-		n2, err = f.inner.WriteAt(b[half:], off+int64(half))
-		n += n2
+		if flt == "half" {
+			err = errInjected
+		} else {
+			var n2 int
+			n2, err = f.inner.WriteAt(b[half:], off+int64(half))
+			n += n2
+		}
 	}
 	e := map[string]any{"ev": "w", "phase": "exit", "f": f.o, "p": p}
 	if err != nil {
 		e["err"] = err.Error()
+		if flt != "" {
+			e["fault"] = flt
+		}
 	}
 	f.c.gate('w', e)
 	return n, err
@@ -450,13 +518,14 @@ func childMain(args []string) {
 	fresh := fl.Bool("fresh", false, "")
 	wrap := fl.Bool("wrap", true, "")
 	gset := fl.String("gates", "", "")
+	fault := fl.String("fault", "", "p:section:mode:once - the storage write of that section fails")
 	fl.Parse(args)
 	torrent.DisableLogging()
 	g, err := newGeo(*layout, *unit, *seed)
 	if err != nil {
 		panic(err)
 	}
-	c := &child{gates: map[int]chan struct{}{}, gset: *gset, g: g}
+	c := &child{gates: map[int]chan struct{}{}, gset: *gset, g: g, fault: parseFault(*fault)}
 	cfg, err := vh.BaseConfig(*dir, 1)
 	if err != nil {
 		panic(err)
@@ -569,6 +638,15 @@ type Run struct {
 	Del   []int  `json:"del"` // file ordinals deleted before this run (-1 = every file)
 	RwiMs int    `json:"rwiMs"`
 	Kill  Kill   `json:"kill"`
+	Fault *Fault `json:"fault"` // write fault injected in this life (wrapping provider only)
+}
+
+// Fault: the storage write of section S (index into the files of piece P, in write order) fails.
+type Fault struct {
+	P    int    `json:"p"`
+	S    int    `json:"s"`
+	Mode string `json:"mode"` // enter (nothing written) | half (first half of the section written)
+	Once bool   `json:"once"`
 }
 
 type Scenario struct {
@@ -578,6 +656,8 @@ type Scenario struct {
 	Seed   int64  `json:"seed"`
 	Runs   []Run  `json:"runs"`
 	Pre    []Pre  `json:"pre"` // data files that exist before the torrent is added
+	Multi  *MultiSpec `json:"multi"` // family "multi": several torrents in one session (multi.go)
+	Move   *MoveSpec  `json:"move"`  // family "move": a torrent is moved into the session (multi.go)
 }
 
 type Pre struct {
@@ -618,6 +698,8 @@ type runner struct {
 	verified bool
 	settled  bool
 	reached  []string
+	faulted  bool // an injected write fault was reported by the child in this life
+	norec    bool // the last inspection found no record of the torrent (legitimate only for a torrent that never got one)
 }
 
 func (r *runner) abs(e map[string]any) { r.out = append(r.out, e) }
@@ -669,7 +751,7 @@ func subset(a, b []int) bool {
 func (r *runner) dataDir() string { return filepath.Join(r.dir, "data") }
 
 // inspect reads the resume record out of a copy of the database file, as any later process would find it.
-func (r *runner) inspect() (reopen bool, what string, known bool, bits []int) {
+func (r *runner) inspect() (bool, string, bool, []int) {
 	src := filepath.Join(r.dir, "session.db")
 	b, err := os.ReadFile(src)
 	if err != nil {
@@ -680,60 +762,11 @@ func (r *runner) inspect() (reopen bool, what string, known bool, bits []int) {
 		return false, "copy: " + err.Error(), false, []int{}
 	}
 	defer os.Remove(cp)
-	bits = []int{}
-	func() {
-		defer func() {
-			if x := recover(); x != nil {
-				reopen, what = false, fmt.Sprint("panic: ", x)
-			}
-		}()
-		db, err := bbolt.Open(cp, 0o600, &bbolt.Options{ReadOnly: true, Timeout: 2 * time.Second})
-		if err != nil {
-			what = "open: " + err.Error()
-			return
-		}
-		defer db.Close()
-		err = db.View(func(tx *bbolt.Tx) error {
-			var cerr error
-			for e := range tx.Check() {
-				if cerr == nil {
-					cerr = e
-				}
-			}
-			if cerr != nil {
-				return fmt.Errorf("check: %v", cerr)
-			}
-			tb := tx.Bucket([]byte("torrents"))
-			if tb == nil {
-				return fmt.Errorf("no torrents bucket")
-			}
-			bk := tb.Bucket([]byte(torrentID))
-			if bk == nil {
-				return fmt.Errorf("no record")
-			}
-			if !bytes.Equal(bk.Get([]byte("info_hash")), r.g.tor.InfoHash[:]) {
-				return fmt.Errorf("info_hash differs")
-			}
-			if !bytes.Equal(bk.Get([]byte("info")), r.g.tor.InfoBytes) {
-				return fmt.Errorf("info differs")
-			}
-			v := bk.Get([]byte("bitfield"))
-			if len(v) > 0 {
-				if len(v) != (r.g.tor.NumPieces+7)/8 {
-					return fmt.Errorf("bitfield length %d", len(v))
-				}
-				known = true
-				bits = bitsOf(v, r.g.tor.NumPieces)
-			}
-			return nil
-		})
-		if err != nil {
-			what = err.Error()
-			return
-		}
-		reopen = true
-	}()
-	return
+	reopen, what, rec, known, bits := inspectDB(cp, r.g)
+	if reopen && !rec {
+		reopen, what = false, "no record"
+	}
+	return reopen, what, known, bits
 }
 
 func (r *runner) spawn(ri int, run Run, fresh bool) (*proc, error) {
@@ -751,6 +784,17 @@ func (r *runner) spawn(ri int, run Run, fresh bool) (*proc, error) {
 	cmd := exec.Command(os.Args[0], "child", "-dir", r.dir, "-layout", r.sc.Layout, "-unit", strconv.Itoa(r.sc.Unit),
 		"-seed", strconv.FormatInt(r.sc.Seed, 10), "-rwiMs", strconv.Itoa(run.RwiMs), "-port", strconv.Itoa(r.port),
 		"-fresh="+strconv.FormatBool(fresh), "-wrap="+strconv.FormatBool(run.Wrap), "-gates", gs)
+	if f := run.Fault; f != nil {
+		once := "0"
+		if f.Once {
+			once = "1"
+		}
+		cmd.Args = append(cmd.Args, "-fault", fmt.Sprintf("%d:%d:%s:%s", f.P, f.S, f.Mode, once))
+	}
+	return startProc(cmd)
+}
+
+func startProc(cmd *exec.Cmd) (*proc, error) {
 	p := &proc{cmd: cmd, ev: make(chan map[string]any, 256)}
 	cmd.Stderr = &p.stderr
 	var err error
@@ -808,6 +852,16 @@ func (r *runner) observe(e map[string]any) int {
 				r.abs(map[string]any{"ev": "wbegin", "p": p})
 			}
 		case "exit":
+			if e["err"] != nil {
+				// the write of one section failed: Piece.Write ends here with the error (sections written so far stay)
+				sec := r.wsec[p]
+				r.wsec[p] = 0
+				if e["fault"] != nil {
+					r.faulted = true
+				}
+				r.abs(map[string]any{"ev": "wend", "p": p, "ok": false, "sec": sec, "f": num(e, "f")})
+				break
+			}
 			r.wsec[p]++
 			if r.wsec[p] >= len(r.g.fo[p]) {
 				r.wsec[p] = 0
@@ -834,7 +888,7 @@ func isSettled(e map[string]any) bool {
 
 // life runs one process life up to its kill point and appends the crash observation.
 func (r *runner) life(ri int, run Run, fresh bool) error {
-	r.known, r.have, r.wsec, r.verified, r.settled = false, []int{}, map[int]int{}, false, false
+	r.known, r.have, r.wsec, r.verified, r.settled, r.faulted = false, []int{}, map[int]int{}, false, false, false
 	r.abs(map[string]any{"ev": "up", "fresh": fresh, "mode": run.Mode, "wrap": run.Wrap})
 	p, err := r.spawn(ri, run, fresh)
 	if err != nil {
@@ -848,12 +902,16 @@ func (r *runner) life(ri int, run Run, fresh bool) error {
 	}()
 	k := run.Kill
 	ord := map[string]int{}
-	var seeder *vh.Seeder
+	var seeder, seeder2 *vh.Seeder
 	var seedMu sync.Mutex
+	reseeded := false
 	defer func() {
 		seedMu.Lock()
 		if seeder != nil {
 			seeder.Close()
+		}
+		if seeder2 != nil {
+			seeder2.Close()
 		}
 		seedMu.Unlock()
 	}()
@@ -950,7 +1008,7 @@ func (r *runner) life(ri int, run Run, fresh bool) error {
 				r.haveInit = -1
 			}
 			if ev == "snap" {
-				if s, _ := e["err"].(string); s != "" && e["status"] == "Stopped" && !triggered {
+				if s, _ := e["err"].(string); s != "" && e["status"] == "Stopped" && !triggered && !r.faulted {
 					return machErr{"torrent stopped with error: " + s}
 				}
 				if r.haveInit == -1 && e["known"] == true {
@@ -1050,6 +1108,18 @@ func (r *runner) life(ri int, run Run, fresh bool) error {
 						kill(k.DelayUs)
 						done = true
 					}
+				case "faulted", "fstopped", "frestart", "fclose":
+					// a storage write of the selected section failed (the gate of its exit event was released above)
+					if r.faulted {
+						triggered = true
+						r.reached = append(r.reached, k.Kind)
+						if k.Kind == "faulted" {
+							kill(k.DelayUs)
+							done = true
+						} else {
+							waitFor = "fault-outcome"
+						}
+					}
 				case "settled":
 					if r.settled {
 						triggered = true
@@ -1069,6 +1139,53 @@ func (r *runner) life(ri int, run Run, fresh bool) error {
 							time.Sleep(500 * time.Microsecond)
 							p.send("q")
 						}
+					}
+				case "fault-outcome":
+					// what the client makes of the failed write: it stops the torrent (error), or it goes on to completion
+					stopped := ev == "snap" && e["status"] == "Stopped"
+					if !stopped && ev != "complete" {
+						break
+					}
+					if stopped {
+						point = k.Kind + ":stopped"
+					} else {
+						point = k.Kind + ":complete"
+					}
+					switch {
+					case k.Kind == "fclose":
+						p.send("close")
+						waitFor = "exit"
+					case k.Kind == "frestart" && stopped:
+						p.send("start")
+						waitFor = "fault-restarted"
+					case stopped:
+						kill(k.DelayUs)
+						done = true
+					default:
+						kill(max(k.DelayUs, 12000))
+						done = true
+					}
+				case "fault-restarted":
+					if ev == "snap" && isSettled(e) && !reseeded {
+						reseeded = true
+						addr := fmt.Sprintf("127.0.0.1:%d", num(e, "port"))
+						go func() {
+							for try := 0; try < 3; try++ {
+								s, err := vh.ConnectSeeder(r.T, "seed2", "127.0.0.3", addr, r.g.tor, &vh.SeederPolicy{})
+								if err == nil {
+									seedMu.Lock()
+									seeder2 = s
+									seedMu.Unlock()
+									return
+								}
+								time.Sleep(200 * time.Millisecond)
+							}
+						}()
+					}
+					if ev == "complete" {
+						point = k.Kind + ":recovered"
+						kill(k.DelayUs)
+						done = true
 					}
 				case "stopret":
 					if ev == "stopret" {
@@ -1103,10 +1220,10 @@ func (r *runner) life(ri int, run Run, fresh bool) error {
 	if !sessionSeen {
 		return machErr{"child died before the session was up: " + tail(p.stderr.String())}
 	}
-	if exited && !(k.Kind == "close" && triggered) {
+	if exited && !((k.Kind == "close" || k.Kind == "fclose") && triggered) {
 		return machErr{fmt.Sprintf("child exited by itself (run %d %s/%s#%d): %s", ri, run.Mode, k.Kind, k.N, tail(p.stderr.String()))}
 	}
-	if exited {
+	if exited && k.Kind == "close" {
 		point = "closed"
 	}
 	reopen, what, dbk, bits := r.inspect()
@@ -1162,10 +1279,22 @@ func runScenario(sc Scenario, work string, slot int) (out []map[string]any, reac
 		if err2 != nil {
 			return nil, nil, err2
 		}
-		port, err2 := vh.FreePortRange(4)
+		port, err2 := vh.FreePortRange(10)
 		if err2 != nil {
 			os.RemoveAll(dir)
 			return nil, nil, err2
+		}
+		if sc.Multi != nil || sc.Move != nil {
+			o, rc, err2 := runMulti(sc, dir, port, T)
+			os.RemoveAll(dir)
+			if err2 == nil {
+				return o, rc, nil
+			}
+			err = err2
+			if _, ok := err.(machErr); !ok {
+				return nil, nil, err
+			}
+			continue
 		}
 		r := &runner{sc: sc, g: g, dir: dir, port: port, T: T}
 		fo := make([][]int, len(g.fo))
@@ -1226,7 +1355,7 @@ func runMain(args []string) {
 	s.Buffer(make([]byte, 1<<20), 1<<24)
 	for s.Scan() {
 		var sc Scenario
-		if json.Unmarshal(s.Bytes(), &sc) == nil && len(sc.Runs) > 0 {
+		if json.Unmarshal(s.Bytes(), &sc) == nil && (len(sc.Runs) > 0 || sc.Multi != nil || sc.Move != nil) {
 			scs = append(scs, sc)
 		}
 	}
@@ -1316,6 +1445,8 @@ func main() {
 		runMain(os.Args[2:])
 	case "child":
 		childMain(os.Args[2:])
+	case "child2":
+		child2Main(os.Args[2:])
 	case "probe":
 		probeMain(os.Args[2:])
 	default:
